@@ -85,7 +85,7 @@ ConvOK(src, to, r) ==
     [] to = "str" ->
          IF src.k = "txt" THEN r = src.txt
          ELSE IF src.ty \in IntTypes THEN r = DecText(n.v) ELSE TRUE
-    [] to = "bytes" -> r = (IF src.k = "txt" THEN src.txt ELSE <<>>)
+    [] to = "bytes" -> IF src.k = "txt" THEN r = src.txt ELSE TRUE
     [] to = "dur" ->
          IF src.k = "num"
          THEN r.ok /\ (InRange(n.v, Rng["s64"]) => [neg |-> r.neg, d |-> r.d] = n.v)
